@@ -47,9 +47,11 @@ def run(ctx):
     ctx.count(0, [("run", i) for i in range(n1 + n2)])
     # socket-level tier: the output of `sx arp --json` (a superseded line included) piped into `sx tcp` as its ARP cache, no gateway MAC:
     # destination MACs read off the wire; destinations without an entry are not probed
+    # with two default routes in the namespace the fall-back MAC is the cache entry of the gateway of the scan interface
+    mine = ("tcp-from-arp-output", "tcp-gateway-of-scan-interface")
     for focus in ("source", "coverage"):
-        n3, rej = wt.run_wire(ctx, select=lambda s: s["name"] == "tcp-from-arp-output", label="c11w" + focus[0], focus=focus)
-        wt.report(ctx, "C11", rej, names=lambda b: b["name"] == "tcp-from-arp-output")
+        n3, rej = wt.run_wire(ctx, select=lambda s: s["name"] in mine, label="c11w" + focus[0], focus=focus)
+        wt.report(ctx, "C11", rej, names=lambda b: b["name"] in mine)
     for r0 in vf.split_runs(events)[:1]:
         ctx.sample(r0[:12])
     for r0 in vf.split_runs(vf.read_ndjson(t2))[:2]:
